@@ -77,7 +77,8 @@ def write_history(d, files, rng, decorate=True):
             elif kind == 2:
                 js = json.dumps('a note')
             else:
-                js = '{"40001": 1'[:rng.randrange(1, 10)]
+                # corrupt: cut short, or well-formed JSON of the wrong shape (a list, a bare number, true, an overflowing value)
+                js = rng.choice(['{"40001": 1'[:rng.randrange(1, 10)], '{"40001": 1'[:rng.randrange(1, 10)], '[1, 2]', '17', 'true', '{"40001": 1e999}', '{"x": 1}'])
             lines.append('\t'.join((tstr, json.dumps(k), js)) + '\n')
             if decorate and rng.random() < 0.25:
                 lines.append(rng.choice(['# comment\n', '\n', '   \n', '#\n']))
